@@ -91,6 +91,8 @@ pub struct Opts {
     pub level: &'static str,
     pub rule: String,
     pub assumptions: Vec<String>,
+    /// after a fixpoint run, re-derive the reachable state count with stateright and compare
+    pub xcheck: bool,
 }
 
 impl Opts {
@@ -119,6 +121,7 @@ impl Opts {
             level: "model_checking",
             rule: String::new(),
             assumptions: vec![],
+            xcheck: false,
         }
     }
 }
@@ -180,7 +183,7 @@ struct Local {
     kinds: BTreeMap<&'static str, (u64, u64)>,
 }
 
-fn key_of<M: Hash>(cfg: usize, state: u128, m: &M) -> u128 {
+pub fn key_of<M: Hash>(cfg: usize, state: u128, m: &M) -> u128 {
     let mut h1 = std::collections::hash_map::DefaultHasher::new();
     let mut h2 = std::collections::hash_map::DefaultHasher::new();
     h2.write_u64(0x51ed_270b_7f4a_7c15);
@@ -897,10 +900,63 @@ pub fn replay_file<S: Scenario>(s: &S, file: &str) -> i32 {
     }
 }
 
+/// Cross-check of a completed fixpoint run: stateright's BFS over the same scenario must reach
+/// exactly as many unique states and find no mismatch. The result is added to the evidence file.
+fn crosscheck_with_stateright<S: Scenario + Send + 'static>(s: std::sync::Arc<S>, opts: &Opts) -> i32
+where
+    S::Ctx: 'static,
+    S::M: 'static,
+{
+    let path = report::verif_root().join("evidence").join(format!("{}.json", s.id()));
+    let Ok(txt) = std::fs::read_to_string(&path) else { return 2 };
+    let Ok(mut ev) = serde_json::from_str::<serde_json::Value>(&txt) else { return 2 };
+    if ev["coverage"]["fixpoint"] != serde_json::json!(true) {
+        return 0;
+    }
+    let t0 = Instant::now();
+    let r = crate::xcheck::run(s.clone(), opts.threads);
+    let ours = ev["coverage"]["states"].as_u64().unwrap_or(0);
+    let agree = r.unique_states as u64 == ours && r.violation_path.is_none();
+    ev["coverage"]["stateright_crosscheck"] = serde_json::json!({
+        "unique_states": r.unique_states,
+        "explorer_states": ours,
+        "agree": agree,
+        "wall_s": t0.elapsed().as_secs_f64(),
+    });
+    let _ = std::fs::write(&path, serde_json::to_string_pretty(&ev).unwrap());
+    println!(
+        "{} cross-check: stateright BFS reached {} unique states, explorer fixpoint has {} -> {}",
+        s.id(), r.unique_states, ours, if agree { "agree" } else { "DISAGREE" }
+    );
+    if agree {
+        0
+    } else {
+        eprintln!("MACHINERY-FAILURE {}: explorer and stateright disagree on the reachable state space", s.id());
+        2
+    }
+}
+
 /// Standard `main` for a property binary: `<bin> quick|thorough` or `<bin> replay <file>`.
-pub fn main_for<S: Scenario>(mk: impl Fn(&str) -> (S, Opts)) -> ! {
+pub fn main_for<S: Scenario + Send + 'static>(mk: impl Fn(&str) -> (S, Opts)) -> !
+where
+    S::Ctx: 'static,
+    S::M: 'static,
+{
     let args: Vec<String> = std::env::args().collect();
     let mode = args.get(1).map(|s| s.as_str()).unwrap_or("quick");
+    if mode == "xcheck" {
+        // independent cross-check of the reachable state count with stateright's BFS
+        let tier = args.get(2).map(|s| s.as_str()).unwrap_or("quick");
+        let (s, opts) = mk(tier);
+        let t0 = Instant::now();
+        let s = std::sync::Arc::new(s);
+        let r = crate::xcheck::run(s.clone(), opts.threads);
+        println!(
+            "{} xcheck {}: stateright unique_states={} violation={:?} wall={:.1}s",
+            s.id(), tier, r.unique_states, r.violation_path, t0.elapsed().as_secs_f64()
+        );
+        std::process::exit(if r.violation_path.is_some() { 1 } else { 0 });
+    }
     if mode == "replay" {
         let v: serde_json::Value =
             serde_json::from_str(&std::fs::read_to_string(&args[2]).expect("replay file")).expect("replay json");
@@ -910,6 +966,11 @@ pub fn main_for<S: Scenario>(mk: impl Fn(&str) -> (S, Opts)) -> ! {
     }
     let tier = if mode == "thorough" { "thorough" } else { "quick" };
     let (s, opts) = mk(tier);
-    let out = run(&s, &opts);
-    std::process::exit(out.exit_code);
+    let s = std::sync::Arc::new(s);
+    let out = run(&*s, &opts);
+    let mut code = out.exit_code;
+    if code == 0 && opts.xcheck {
+        code = crosscheck_with_stateright(s.clone(), &opts);
+    }
+    std::process::exit(code);
 }
